@@ -222,6 +222,14 @@ ROUND10 = {
 }
 
 
+ROUND11 = {
+    'C11': 'A spec class with an input port class of its own (INPUT_PORT_TYPE) that refuses None.',
+    'C12': 'Namespaces created on the fly under optional / required hosts with validators, by refused and accepted emissions.',
+    'C14': 'Keys whose id and tag spell the same text when joined by _ or -; a memory persister constructed with an object loader.',
+    'C19': 'A recorded loader that cannot be found at load time (recorded-loader-bypassed).',
+}
+
+
 def main():
     checks = []
     for pid, (level, technique, text, note, ref) in sorted(CHECKS.items()):
@@ -233,6 +241,8 @@ def main():
             text = text.rstrip() + ' Added after round 9: ' + ROUND9[pid]
         if pid in ROUND10:
             text = text.rstrip() + ' Added after round 10: ' + ROUND10[pid]
+        if pid in ROUND11:
+            text = text.rstrip() + ' Added after round 11: ' + ROUND11[pid]
         checks.append(
             {
                 'property_id': pid,
